@@ -17,6 +17,8 @@ machine and table for every generated grammar.
 import KikiVerif.LR.Snd
 import KikiVerif.Proofs.Run
 import KikiVerif.Proofs.Valid
+import KikiVerif.Proofs.Universal
+import KikiVerif.Proofs.Encode
 
 namespace KikiVerif.C01
 open KikiVerif.LR
@@ -60,8 +62,34 @@ theorem C01_sentences_terminate {P : Type} {g : Grammar Nat Nat} {nN : Nat} {C :
     ∃ fuel cf, runCfg g (mkAuto C) fuel ⟨[(mkAuto C).start], [], t.yield⟩ = some (.ok t, cf) :=
   run_accepts (validB_sound (P := P) hv).2 t hwf
 
+/-! ### every grammar: the generator itself -/
+
+/-- **C01 for every validated file** (no per-grammar validation involved): whenever the three generator stages
+succeed — `Encode.encode` (names ↦ rank codes), `validated_ast_to_machine` (FIRST fixpoint, closures, worklist
+with LALR merging, renumbering) and `machine_to_table` — the emitted parse loop over the emitted tables never
+panics on any token sequence, and whenever it ends it returns `Ok` iff the sequence is derivable from the start
+symbol of the (coded) grammar.  Proof: `Proofs/{First,Closure,Cores,Build,Normalize,Generator,TableCells,Assemble}`
+establish that machine and table pass every check of the validator (`checked_of_generator`). -/
+theorem C01_every_grammar {P : Type} (vf : VFile.File) (enc : Encode.Enc) (m : Machine.Machine) (t : Table.Table)
+    (fuel : Nat) (he : Encode.encode vf = some enc) (hm : Machine.machineOf enc.ctx fuel = some (some m))
+    (ht : Table.machineToTable enc.ctx m = .ok t)
+    (w : List (Tok Nat P)) (fuel' : Nat) (r : StepRes Nat P) (cf : Cfg Nat P)
+    (hrun : runCfg enc.ctx.g (Driver.autoOfTable t) fuel' ⟨[(Driver.autoOfTable t).start], [], w⟩ = some (r, cf)) :
+    r ≠ .panic ∧ ((∃ tr, r = .ok tr) ↔ ∃ tr : Tree Nat P, WF enc.ctx.g tr (.n enc.ctx.g.start) ∧ tr.yield = w) :=
+  Universal.emitted_parser_correct (Encode.encode_ok he) hm ht w fuel' r cf hrun
+
+/-- the generator's output always passes the validator that the correspondence run applies per grammar -/
+theorem C01_generator_passes_validator (vf : VFile.File) (enc : Encode.Enc) (m : Machine.Machine) (t : Table.Table)
+    (fuel : Nat) (he : Encode.encode vf = some enc) (hm : Machine.machineOf enc.ctx fuel = some (some m))
+    (ht : Table.machineToTable enc.ctx m = .ok t) :
+    ∃ fm, Valid.Checked enc.ctx.g enc.ctx.nN (Assemble.certOf enc.ctx fm m t) :=
+  let ⟨fm, hk, _⟩ := Universal.generator_checked (Encode.encode_ok he) hm ht
+  ⟨fm, hk⟩
+
 end KikiVerif.C01
 
+#print axioms KikiVerif.C01.C01_every_grammar
+#print axioms KikiVerif.C01.C01_generator_passes_validator
 #print axioms KikiVerif.C01.C01_no_panic_and_sound
 #print axioms KikiVerif.C01.C01_complete
 #print axioms KikiVerif.C01.C01_accepts_iff
